@@ -37,7 +37,7 @@ def main(argv):
     subprocess.check_call(['git', '-C', '/repo', 'worktree', 'add', '--detach', wt, base], stdout=subprocess.DEVNULL, stderr=subprocess.DEVNULL)
     ran.append('git worktree add --detach <scratch> %s' % base)
     # share one target dir between confirmations to save rebuilds of dependencies
-    tgt = '/tmp/verif-seed-target'
+    tgt = os.environ.get('VERIF_SEED_TARGET', '/tmp/verif-seed-target')
     env_prefix = 'CARGO_TARGET_DIR=%s ' % tgt
     verdict = {}
     try:
@@ -81,9 +81,11 @@ def main(argv):
 
     # ---- which checks catch it ----
     M.load_rules()
-    d, repo = selftest.make_scratch()
     fired = {}
+    skip_rules = bool(os.environ.get('VERIF_SKIP_RULES'))      # (several confirmations in parallel: the rules are run by rescan_seeds afterwards)
+    d, repo = (None, None) if skip_rules else selftest.make_scratch()
     try:
+      if not skip_rules:
         rc, o = sh('patch -p1 --no-backup-if-mismatch -i %s/patch.diff' % out, repo)
         if rc != 0:
             print('patch does not apply to scratch copy', o[-300:])
@@ -98,7 +100,8 @@ def main(argv):
             if ks:
                 fired[p] = ks
     finally:
-        shutil.rmtree(d, ignore_errors=True)
+        if d is not None:
+            shutil.rmtree(d, ignore_errors=True)
     print('fired:', json.dumps(fired, indent=1)[:1500])
     dst = os.path.join(VERIF, 'seeded', sid)
     os.makedirs(dst, exist_ok=True)
@@ -115,7 +118,7 @@ def main(argv):
         'detected_by': fired,
         'also_detected_by': [p for p in fired if p != prop],
         'expect': {p: (os.path.commonprefix(ks).rsplit('/', 1)[0] if len(ks) > 1 else ks[0]) for p, ks in fired.items()},
-        'status': 'caught' if prop in fired else ('caught-by-other-property' if fired else 'MISSED'),
+        'status': 'unscanned' if skip_rules else ('caught' if prop in fired else ('caught-by-other-property' if fired else 'MISSED')),
     }
     json.dump(meta, open(os.path.join(dst, 'meta.json'), 'w'), indent=1)
     print('status:', meta['status'])
